@@ -8,6 +8,8 @@ Inductive moment :=
 | MVal (e : vexpr)                (* the value held at this moment (printed from the description of that moment) *)
        (oty : option ty)          (* v.type_() (API object); None = building the value or type_() raised *)
        (oser : option sval)       (* v._to_serial_root(), decoded from its JSON dump *)
+       (docs : list sval)         (* the `v` the graph document holds for the Const nodes, decoded (those whose
+                                     decoding differs from oser; each is judged like oser, none is compared with it) *)
        (ports : option (list ty)) (* every place that must offer the reported type: Const static out-port kind,
                                      LoadConst static in-port kind, its value out-port kind, its signature output,
                                      the serial LoadConstant datatype — for load(value) and add_const + load(node) *)
@@ -15,8 +17,8 @@ Inductive moment :=
        (linked : bool).           (* Const out-port 0 is linked to LoadConst in-port 0 *)
 
 Inductive case :=
-| CVal (std : stddefs) (e : vexpr) (oty : option ty) (oser : option sval) (ports : option (list ty))
-       (nin : nat) (linked : bool)                      (* a freshly built value, observed once (fields as in MVal) *)
+| CVal (std : stddefs) (e : vexpr) (oty : option ty) (oser : option sval) (docs : list sval)
+       (ports : option (list ty)) (nin : nat) (linked : bool)                      (* a freshly built value, observed once (fields as in MVal) *)
 | CSeq (std : stddefs) (ms : list moment).              (* a history on ONE Const node / value object: the value is
                                                            changed between the observations (in place, op.val
                                                            re-assigned, op replaced); the second load is always a
@@ -32,21 +34,29 @@ Definition fsig_eqb (a b : fsig) : bool :=
   rows_sameb (fs_in a) (fs_in b) && rows_sameb (fs_out a) (fs_out b) && list_eqb N.eqb (fs_reqs a) (fs_reqs b).
 
 (* serial values compared with types up to the normal form (the model keeps API types, the observation is
-   decoded from JSON where extension types are opaque).  a = the observation, b = the model's.
+   decoded from JSON where extension types are opaque).  a = the observation, b = the model's.  Both are first
+   brought to the general spelling (`general`, spec/ValuesS.v): the model writes a tuple in the shorthand the
+   code uses today, the property speaks of the value the serialized form denotes.
    Extension lists: the property promises that a std constant "names its defining extension AMONG the extensions
    it uses" — the list the model writes (the defining extension) must be included in the observed one, which may
    name more (e.g. the requirements of nested element values, as hugr-core's extension_reqs does); no order is
-   promised.  A raw val.Extension (payload SPOther) passes the caller's list through: compared as a set. *)
+   promised.  Of the list of a raw val.Extension (payload SPOther) the property says nothing: not compared (the
+   harness counts changed lists in the evidence). *)
 Fixpoint sval_eqb (a b : sval) {struct a} : bool :=
   let fix all (l m : list sval) : bool :=
     match l, m with [], [] => true | x :: r, y :: s => sval_eqb x y && all r s | _, _ => false end in
   match a, b with
   | SSum t1 ty1 v1, SSum t2 ty2 v2 => Nat.eqb t1 t2 && same_tyb ty1 ty2 && all v1 v2
   | STuple v1, STuple v2 => all v1 v2
+  (* a tuple left in the shorthand on one side only: `general` could not give it a type because the enclosing value
+     is ill typed (a field the variant row has no type for — outside the property's domain, where mon does not
+     judge inhabitation); the two spellings are then matched without the type the shorthand does not carry *)
+  | SSum t1 ty1 v1, STuple v2 => Nat.eqb t1 0 && match sum_rows ty1 with Some [_] => all v1 v2 | _ => false end
+  | STuple v1, SSum t2 ty2 v2 => Nat.eqb t2 0 && match sum_rows ty2 with Some [_] => all v1 v2 | _ => false end
   | SFunc d1 i1 o1, SFunc d2 i2 o2 => fsig_eqb d1 d2 && rows_sameb i1 i2 && rows_sameb o1 o2
   | SExt n1 t1 p1 e1, SExt n2 t2 p2 e2 =>
       cname_eqb n1 n2 && same_tyb t1 t2 && payload_eqb p1 p2 &&
-      match p2 with SPOther => seteq_b N.eqb e1 e2 | _ => incl_b N.eqb e2 e1 end
+      match p2 with SPOther => true | _ => incl_b N.eqb e2 e1 end
   | _, _ => false
   end
 with payload_eqb (a b : spayload) {struct a} : bool :=
@@ -68,11 +78,27 @@ with payload_eqb (a b : spayload) {struct a} : bool :=
 Definition refused (oty : option ty) (oser : option sval) : bool :=
   match oty, oser with Some _, Some _ => false | _, _ => true end.
 
-Definition corr_obs (std : stddefs) (e : vexpr) (o : hobs) (oty : option ty) (oser : option sval)
+(* the observed serial value a (read at the observed type ta) and the model's b (at the model's type tb) denote
+   the same value *)
+Definition ser_same (a : sval) (ta : ty) (b : sval) (tb : ty) : bool := sval_eqb (general a ta) (general b tb).
+
+Definition corr_obs (std : stddefs) (e : vexpr) (o : hobs) (oty : option ty) (oser : option sval) (docs : list sval)
                     (ports : option (list ty)) (nin : nat) (linked : bool) : bool :=
-  (negb (wf_expr std e) && refused oty oser) ||
-  (option_eqb ty_eqb oty (ho_type o) &&
-   option_eqb sval_eqb oser (ho_ser o) &&
+  (* outside the domain: refusing the value, or refusing to put it on a Const / LoadConst / into a document *)
+  (negb (wf_expr std e) && (refused oty oser || match ports with None => true | Some _ => false end)) ||
+  (* the reported type, up to the identity of types of the specification (which Python class spells it — UnitSum
+     or Sum of empty rows, a std subclass or the generic ExtType, resolved or opaque — is not promised) *)
+  (match oty, ho_type o with
+   | Some t, Some tm =>
+       same_tyb t tm &&
+       match oser, ho_ser o with
+       | Some s, Some sm => ser_same s t sm tm && forallb (fun d => ser_same d t sm tm) docs
+       | None, None => true
+       | _, _ => false
+       end
+   | None, None => match oser, ho_ser o with None, None => true | _, _ => false end
+   | _, _ => false
+   end &&
    match ports, ho_port o, ho_load o with
    | Some ps, Some t, Some (i, [o]) =>
        forallb (same_tyb t) ps && same_tyb o t && Nat.eqb nin (length i) && linked
@@ -80,14 +106,14 @@ Definition corr_obs (std : stddefs) (e : vexpr) (o : hobs) (oty : option ty) (os
    | _, _, _ => false
    end).
 Definition corr_moment (std : stddefs) (o : hobs) (m : moment) : bool :=
-  match m with MVal e oty oser ports nin linked => corr_obs std e o oty oser ports nin linked end.
-Definition moment_expr (m : moment) : vexpr := match m with MVal e _ _ _ _ _ => e end.
+  match m with MVal e oty oser docs ports nin linked => corr_obs std e o oty oser docs ports nin linked end.
+Definition moment_expr (m : moment) : vexpr := match m with MVal e _ _ _ _ _ _ => e end.
 Fixpoint all2 {A B} (f : A -> B -> bool) (l : list A) (m : list B) : bool :=
   match l, m with [], [] => true | x :: r, y :: s => f x y && all2 f r s | _, _ => false end.
 
 Definition corr (c : case) : bool :=
   match c with
-  | CVal std e oty oser ports nin linked => corr_obs std e (observe_const std e) oty oser ports nin linked
+  | CVal std e oty oser docs ports nin linked => corr_obs std e (observe_const std e) oty oser docs ports nin linked
   | CSeq std ms =>
       (* the model's history: the node is made to hold the value of each moment, then observed *)
       match ms with
@@ -108,13 +134,18 @@ Fixpoint constructible (e : vexpr) : bool :=
 
 Definition len_eq {A B} (l : list A) (m : list B) : bool := Nat.eqb (length l) (length m).
 (* the clauses "helpers build the corresponding sum type with the right tag" and "std constants report the
-   matching std type, name their extension, embed elements with the element type", on the observation *)
+   matching std type, name their extension, embed elements with the element type", on the observation.
+   s is the GENERAL spelling of the observed value (mon_ser): a tuple is a sum value with tag 0 whose embedded type
+   is the one-row sum it reports, whichever way it was written; a general-form value with another tag or another
+   type fails here (and in has_type_b). *)
 Definition shape_ok (std : stddefs) (e : vexpr) (t : ty) (s : sval) : bool :=
   match e, s with
   | ESum tag typ vs, SSum tag' typ' ss => Nat.eqb tag tag' && same_tyb typ typ' && same_tyb t typ && len_eq ss vs
   | EUnitSum tag n, SSum tag' _ ss => Nat.eqb tag tag' && same_tyb t (TUnitSum n) && len_eq ss (@nil nat)
   | EBool b, SSum tag' _ ss => Nat.eqb tag' (if b then 1 else 0) && same_tyb t (TUnitSum 2) && len_eq ss (@nil nat)
-  | ETuple vs, STuple ss => len_eq ss vs && match sum_rows t with Some [row] => len_eq row vs | _ => false end
+  | ETuple vs, SSum tag' typ' ss =>
+      Nat.eqb tag' 0 && same_tyb typ' t && len_eq ss vs &&
+      match sum_rows t with Some [row] => len_eq row vs | _ => false end
   | ESome vs, SSum tag' _ ss =>
       Nat.eqb tag' 1 && len_eq ss vs && match sum_rows t with Some [[]; row] => len_eq row vs | _ => false end
   | ENone ts, SSum tag' _ ss =>
@@ -127,7 +158,7 @@ Definition shape_ok (std : stddefs) (e : vexpr) (t : ty) (s : sval) : bool :=
       match sum_rows t with Some [l; r] => len_eq r vs && rows_sameb l lts | _ => false end
   | EFunc sig, SFunc _ _ _ => same_tyb t (TFunc (fs_in sig) (fs_out sig) (fs_reqs sig))
   | EExt nm typ exts, SExt nm' typ' SPOther exts' =>
-      cname_eqb nm nm' && same_tyb typ typ' && same_tyb t typ && seteq_b N.eqb exts exts'
+      cname_eqb nm nm' && same_tyb typ typ' && same_tyb t typ
   | EInt v w, SExt CInt _ (SPInt w' v') exts =>
       Nat.eqb w w' && Z.eqb v v' && same_tyb t (s_int std w) && has_ext (td_ext (d_int std)) exts
   | EFloat, SExt CF64 _ SPFloat exts => same_tyb t (s_float std) && has_ext (td_ext (d_float std)) exts
@@ -143,16 +174,23 @@ Definition shape_ok (std : stddefs) (e : vexpr) (t : ty) (s : sval) : bool :=
   | _, _ => false
   end.
 
-Definition mon_val (std : stddefs) (e : vexpr) (oty : option ty) (oser : option sval) (ports : option (list ty))
-                   (nin : nat) (linked : bool) : bool :=
+(* one serialized form s of the value (its own, or the one a graph document holds for a Const node) against the
+   reported type t: it inhabits t (the judgment reads both spellings), and it is the value the constructor was
+   asked for *)
+Definition mon_ser (std : stddefs) (e : vexpr) (t : ty) (s : sval) : bool :=
+  (if wf_expr std e then has_type_b std s t else true) && shape_ok std e t (general s t).
+
+Definition mon_val (std : stddefs) (e : vexpr) (oty : option ty) (oser : option sval) (docs : list sval)
+                   (ports : option (list ty)) (nin : nat) (linked : bool) : bool :=
   std_okb std &&
   match oty, oser with
   | Some t, Some s =>
-      (if wf_expr std e then has_type_b std s t else true) &&     (* the value inhabits the type it reports *)
-      shape_ok std e t s &&
+      mon_ser std e t s && forallb (mon_ser std e t) docs &&       (* the value inhabits the type it reports *)
       match ports with
       | Some ps => forallb (fun p => same_tyb p t) ps && Nat.eqb nin 0 && linked
-      | None => false
+      (* the value could not be put on a Const node / loaded / written into a document: accepted only for a
+         description outside the property's domain *)
+      | None => negb (wf_expr std e)
       end
   (* nothing was built: legitimate only for a StaticArrayVal over a linear element, or for a description outside
      the property's domain that the implementation refuses (see `refused`) *)
@@ -162,10 +200,53 @@ Definition mon_val (std : stddefs) (e : vexpr) (oty : option ty) (oser : option 
 
 Definition mon (c : case) : bool :=
   match c with
-  | CVal std e oty oser ports nin linked => mon_val std e oty oser ports nin linked
+  | CVal std e oty oser docs ports nin linked => mon_val std e oty oser docs ports nin linked
   (* every moment of a history is judged like a fresh value of the description of that moment: what is reported /
      offered / emitted NOW is about the value held NOW *)
   | CSeq std ms =>
       negb (Nat.eqb (length ms) 0) &&
-      forallb (fun m => match m with MVal e oty oser ports nin linked => mon_val std e oty oser ports nin linked end) ms
+      forallb (fun m => match m with MVal e oty oser docs ports nin linked => mon_val std e oty oser docs ports nin linked end) ms
   end.
+
+(* ---- the verdict functions on the spellings of one tuple (checked at every build) ----
+   Tuple(TRUE, IntVal(5, 3)) reporting the one-row sum [[bool; int<3>]]: the shorthand and the general form are
+   accepted by mon and by corr; a general form with another tag, another embedded type, or fields in another order
+   is rejected by mon (and by corr). *)
+From HV Require proofs.ValuesP.
+Module SpellingExamples.
+  Import HV.proofs.ValuesP.
+  Definition std := ex_std.
+  Definition e := ETuple [EBool true; EInt 5 3].
+  Definition t := TSum [[TUnitSum 2; int_t std 3]].
+  Definition i3 := SExt CInt (int_t std 3) (SPInt 3 5) [td_ext (d_int std)].
+  Definition tt := SSum 1 (TUnitSum 2) [].
+  Definition verdicts (s : sval) : bool * bool :=
+    (mon (CVal std e (Some t) (Some s) [s] (Some [t; t]) 0 true),
+     corr (CVal std e (Some t) (Some s) [s] (Some [t; t]) 0 true)).
+  Example shorthand_accepted : verdicts (STuple [tt; i3]) = (true, true).
+  Proof. vm_compute. reflexivity. Qed.
+  Example general_accepted : verdicts (SSum 0 t [tt; i3]) = (true, true).
+  Proof. vm_compute. reflexivity. Qed.
+  Example general_unit_type_spelt_out_accepted :
+    verdicts (SSum 0 (TSum [[TSum [[]; []]; int_t std 3]]) [SSum 1 (TSum [[]; []]) []; i3]) = (true, true).
+  Proof. vm_compute. reflexivity. Qed.
+  Example general_wrong_tag_rejected : verdicts (SSum 1 t [tt; i3]) = (false, false).
+  Proof. vm_compute. reflexivity. Qed.
+  Example general_wrong_type_rejected : verdicts (SSum 0 (TSum [[int_t std 3; TUnitSum 2]]) [tt; i3]) = (false, false).
+  Proof. vm_compute. reflexivity. Qed.
+  Example general_option_type_rejected : verdicts (SSum 1 (TSum [[]; [TUnitSum 2; int_t std 3]]) [tt; i3]) = (false, false).
+  Proof. vm_compute. reflexivity. Qed.
+  Example general_fields_swapped_rejected : verdicts (SSum 0 t [i3; tt]) = (false, false).
+  Proof. vm_compute. reflexivity. Qed.
+  (* a document value is judged on its own: a good `oser` does not excuse a bad Const document *)
+  Example bad_document_rejected :
+    mon (CVal std e (Some t) (Some (STuple [tt; i3])) [SSum 1 t [tt; i3]] (Some [t]) 0 true) = false.
+  Proof. vm_compute. reflexivity. Qed.
+  (* the unit value in the shorthand is the empty tuple; a bool in the shorthand is not a bool *)
+  Example unit_shorthand_accepted :
+    mon (CVal std (EUnitSum 0 1) (Some (TUnitSum 1)) (Some (STuple [])) [] (Some [TUnitSum 1]) 0 true) = true.
+  Proof. vm_compute. reflexivity. Qed.
+  Example bool_shorthand_rejected :
+    mon (CVal std (EBool false) (Some (TUnitSum 2)) (Some (STuple [])) [] (Some [TUnitSum 2]) 0 true) = false.
+  Proof. vm_compute. reflexivity. Qed.
+End SpellingExamples.
